@@ -478,7 +478,12 @@ async fn run_inbound(
         }
         Node::settle().await;
     }
-    // the remote reads until nothing more arrives
+    // the remote reads until nothing more arrives (a window that was open at all is opened wide, so
+    // that draining takes no logical time)
+    if cap > 0 {
+        ctl.set_cap(1 << 20);
+        Node::settle().await;
+    }
     loop {
         let more = ctl.remote_read_all();
         Node::settle().await;
